@@ -4,7 +4,7 @@ import Knee.Lemmas.Mapping
 
 Model: `Knee.computeRemoved` (rdp.compute_removed_points), `Knee.mapping` (rdp.mapping).
 Integers only; no oracle, no tolerance.  The clause "compute_removed_points reproduces the
-removed table returned by each simplifier" is `simplifier_removed` in `Props/C01.lean`
+removed table returned by each simplifier" is `simplifier_removed_is_computeRemoved` in `Props/C07S.lean` (all five simplifiers)
 (the simplifier models return `computeRemoved reduced` by theorem).
 -/
 namespace Knee
